@@ -66,7 +66,7 @@ func (o *readOutcome) sticky() string {
 		return fmt.Sprintf("%d bytes returned after the first error %v", o.AgainBytes, o.Err)
 	}
 	for i, e := range o.AgainErrs {
-		if e != o.Err {
+		if e != o.Err && !(e != nil && o.Err != nil && e.Error() == o.Err.Error()) {
 			return fmt.Sprintf("Read #%d after the first error returned %v, first error was %v", i+1, e, o.Err)
 		}
 	}
